@@ -29,7 +29,12 @@ type c53Case struct {
 	Clean          bool // copy after Close (clean shutdown) or while the DB is open (unclean)
 	SandboxOutside bool
 	Flush          bool
+	// Ranges select sub-range queries: both ends are picked among the structural boundaries of the
+	// directory (block min/max times, head min/max time) with an offset of -1, 0 or +1.
+	Ranges []c53Range `json:",omitempty"`
 }
+
+type c53Range struct{ A, B, DA, DB int }
 
 func genC53(t *rapid.T) c53Case {
 	f := false
@@ -38,6 +43,10 @@ func genC53(t *rapid.T) c53Case {
 		Clean:          rapid.Bool().Draw(t, "clean"),
 		SandboxOutside: rapid.Bool().Draw(t, "sandboxoutside"),
 		Flush:          rapid.IntRange(0, 2).Draw(t, "flush") == 0,
+		Ranges: rapid.SliceOfN(rapid.Custom(func(t *rapid.T) c53Range {
+			return c53Range{A: rapid.IntRange(0, 15).Draw(t, "ra"), B: rapid.IntRange(0, 15).Draw(t, "rb"),
+				DA: rapid.IntRange(-1, 1).Draw(t, "rda"), DB: rapid.IntRange(-1, 1).Draw(t, "rdb")}
+		}), 3, 3).Draw(t, "ranges"),
 	}
 }
 
@@ -205,6 +214,43 @@ func runC53(c c53Case, rec *ev.Rec) error {
 		resHead, _ = tsdbrun.QuerySamples(hq, tsdbrun.Matchers(nil))
 		hq.Close()
 	}
+	// sub-range queries of the read-write open, to be compared with the read-only open below
+	type subRange struct {
+		mint, maxt int64
+		rw         string
+	}
+	var subs []subRange
+	{
+		var bounds []int64
+		for _, b := range dbB.Blocks() {
+			bounds = append(bounds, b.Meta().MinTime, b.Meta().MaxTime)
+		}
+		if hm := dbB.Head().MinTime(); hm != math.MaxInt64 {
+			bounds = append(bounds, hm)
+		}
+		if hm := dbB.Head().MaxTime(); hm != math.MinInt64 {
+			bounds = append(bounds, hm)
+		}
+		for _, sel := range c.Ranges {
+			if len(bounds) == 0 {
+				break
+			}
+			a := bounds[sel.A%len(bounds)] + int64(sel.DA)
+			b := bounds[sel.B%len(bounds)] + int64(sel.DB)
+			if a > b {
+				a, b = b, a
+			}
+			qq, err := dbB.Querier(a, b)
+			if err != nil {
+				continue
+			}
+			res, serr := tsdbrun.QuerySamples(qq, tsdbrun.Matchers(nil))
+			qq.Close()
+			if serr == nil {
+				subs = append(subs, subRange{a, b, resultString(res)})
+			}
+		}
+	}
 	dbB.Close()
 	if qerr != nil {
 		return ev.Failf("read-write query: %v", qerr)
@@ -306,6 +352,28 @@ func runC53(c c53Case, rec *ev.Rec) error {
 		}
 		return ev.Failf("%s", msg)
 	}
+	// one DBReadOnly per query: the implementation documents that it does not support several Queriers
+	for _, sr := range subs {
+		ro3, err := tsdb.OpenDBReadOnly(dirA, sandboxRoot, promslog.NewNopLogger())
+		if err != nil {
+			return ev.Failf("OpenDBReadOnly (sub-range): %v", err)
+		}
+		q3, err := ro3.Querier(sr.mint, sr.maxt)
+		if err != nil {
+			ro3.Close()
+			return ev.Failf("read-only Querier(%d,%d): %v\nhistory:\n%s", sr.mint, sr.maxt, err, r.TraceString())
+		}
+		res, qerr := tsdbrun.QuerySamples(q3, tsdbrun.Matchers(nil))
+		q3.Close()
+		ro3.Close()
+		if qerr != nil {
+			return ev.Failf("read-only query [%d,%d]: %v\nhistory:\n%s", sr.mint, sr.maxt, qerr, r.TraceString())
+		}
+		if got := resultString(res); got != sr.rw {
+			return ev.Failf("read-only and read-write open return different data for the range [%d,%d]\nread-only:\n%sread-write:\n%sconfig %+v clean=%v\nhistory:\n%s", sr.mint, sr.maxt, got, sr.rw, c.H.Cfg, c.Clean, r.TraceString())
+		}
+		rec.Class("sub-range-compared")
+	}
 	if walOnly && hasBlocks {
 		rec.NonTrivial()
 	}
@@ -322,6 +390,6 @@ func runC53(c c53Case, rec *ev.Rec) error {
 
 func TestC53(t *testing.T) {
 	ev.Check(t, "C53",
-		"a C01-style history (in-order and out-of-order data, head and OOO compactions, reopen) leaves a directory that is copied twice, after Close or while the DB is open; copy A is hashed, opened with OpenDBReadOnly (sandbox inside the directory or in a sibling directory), queried over the full range, optionally FlushWAL'ed into another directory, closed and hashed again; copy B is opened read-write with the same options and queried; results must be identical and A's tree unchanged. Non-trivial: the directory holds WAL data and at least one block.",
+		"a C01-style history (in-order and out-of-order data, head and OOO compactions, reopen) leaves a directory that is copied twice, after Close or while the DB is open; copy A is hashed, opened with OpenDBReadOnly (sandbox inside the directory or in a sibling directory), queried over the full range and over three sub-ranges whose ends sit on block and head boundaries (-1/0/+1), optionally FlushWAL'ed into another directory, closed and hashed again; copy B is opened read-write with the same options and queried; results must be identical and A's tree unchanged. Non-trivial: the directory holds WAL data and at least one block.",
 		genC53, runC53)
 }
